@@ -73,3 +73,25 @@ Example C02_call_gas_example :
   call_gas true 100000 700 (two64 + 5) = Ok 97749 /\ call_gas true 100000 700 5000 = Ok 5000 /\
   call_gas false 100000 700 5000000 = Ok 5000000 /\ callee_gas 0 true 5000 = 7300 /\ callee_gas 2 true 5000 = 5000.
 Proof. exact ex_call_gas. Qed.
+
+From Verif Require Import Model.SStore Proofs.SStore_proofs.
+(** WHAT SSTORE CHARGES AND REFUNDS under the five schedules (Model/SStore.v, run against every SSTORE of generated executions
+    on all 13 rule sets incl. the Constantinople-only EIP-1283): the re-entrancy sentry of the EIP-2200 family ... *)
+Theorem C02_sstore_sentry : forall o c v g cold cl, g <= 2300 ->
+  is_err (sstore S2200 o c v g cold) = true /\ is_err (sstore (S2929 cl) o c v g cold) = true.
+Proof. exact sstore_sentry. Qed.
+Print Assumptions C02_sstore_sentry.
+
+(** ... and the bookkeeping identity behind the refunds: what a write adds to / takes from the counter keeps it at or above
+    the clearing refunds currently held for originally non-zero slots that are zero now *)
+Theorem C02_sstore_refund_step : forall sch o c v g cold gas add sub,
+  sstore sch o c v g cold = Ok (gas, add, sub) ->
+  sub <= L sch o c /\ L sch o v + sub <= L sch o c + add.
+Proof. exact sstore_step. Qed.
+Print Assumptions C02_sstore_refund_step.
+
+Example C02_sstore_example :
+  sstore (S2929 4800) 5 5 0 50000 true = Ok (5000, 4800, 0) /\ sstore (S2929 4800) 5 0 5 50000 false = Ok (100, 2800, 4800) /\
+  sstore S2200 0 0 7 50000 false = Ok (20000, 0, 0) /\ sstore S1283 0 7 0 50000 false = Ok (200, 19800, 0) /\
+  counter_after (run_writes (S2929 4800) (fun _ => 5) [(1, 0); (1, 5); (1, 0); (2, 0)] (fun _ => 5) 0) = Some 12400.
+Proof. exact ex_sstore. Qed.
